@@ -42,6 +42,9 @@ PROP = dict(
               "Shangrla.RiskLimit.supermajority_outcome_comparison_risk_limit_found",
               "Shangrla.RiskLimit.wrong_outcome_polling_risk_limit", "Shangrla.RiskLimit.wrong_outcome_comparison_risk_limit",
               "Shangrla.RiskLimit.audit_polling_risk_limit", "Shangrla.RiskLimit.audit_comparison_risk_limit",
+              # contests audited by different methods (polling / comparison, own style flag) in one audit
+              "Shangrla.RiskLimit.polling_cards_risk_limit", "Shangrla.RiskLimit.wrong_outcome_risk_limit",
+              "Shangrla.RiskLimit.audit_outcome_risk_limit",
               "Shangrla.RiskLimit.pair_name_clash",
               "Shangrla.RiskLimit.example_outcome_polling_exact", "Shangrla.RiskLimit.example_outcome_comparison_exact"],
     groups={"assorter": (700, 12000)},
